@@ -54,7 +54,7 @@ def check(src, rep):
     emit_p(rep, p, [r for r in p1model.buffer_contracts(p) if r.instance in ("trim-to-start", "pop")], {"buffer": "R3"})
     emit_p(rep, p, [r for r in p1model.skeleton(p) if r.tag in ("hunt-trim", "skeleton")], {"hunt-trim": "R3", "skeleton": "R3"})
     from sa.cross import include
-    include(rep, src, "C02", {"R1", "R2", "R3"}, "R2", "every subsequent well-formed frame is delivered (the reader step refines the reference automaton; the maximum frame is admitted)")
+    include(rep, src, "C02", {"R1", "R2", "R3", "R5"}, "R2", "every subsequent well-formed frame is delivered (the reader step refines the reference automaton; the maximum frame is admitted; the header fields the end-of-frame decision relies on are the transmitted ones)")
     rep.floor("abstract states explored", nstates, 4)
 
 
